@@ -123,6 +123,9 @@ class Engine(StmtMixin, CallMixin, ExprMixin, EngineBase):
         for key in k.get("must_call", []):
             if key not in self.callee_keys:
                 self.obls.append(Obligation(f"{short}/site-exists[{key}]", "site-exists", ["(set-logic ALL)"], [], "false", fn.lineno, short, expect="site"))
+        for key in k.get("at_store", {}):
+            if "store:" + key not in self.sites_seen:
+                self.obls.append(Obligation(f"{short}/site-exists[store:{key}]", "site-exists", ["(set-logic ALL)"], [], "false", fn.lineno, short, expect="site"))
         for key in k.get("at_call", {}):
             if key not in self.sites_seen:
                 self.obls.append(Obligation(f"{short}/site-exists[{key}]", "site-exists", ["(set-logic ALL)"], [], "false", fn.lineno, short, expect="site"))
